@@ -40,6 +40,23 @@ def read_ro(x):
     raise ValueError('unreadable resource entry %r' % (x,))
 
 
+def read_slots_jsrun(slots):
+    '''ContinuousJsrun: one slot = one resource set; cores is a list of core
+    lists (one per rank), gpus the set's GPU list repeated per rank'''
+    out = list()
+    for s in slots or []:
+        cores = sorted(set(c for lst in s.get('cores') or [] for c in lst))
+        gpus  = sorted(set(g for lst in s.get('gpus')  or [] for g in lst))
+        out.append({'node_index': s['node_index'],
+                    'node_name' : s['node_name'],
+                    'cores'     : [(c, 1.0) for c in cores],
+                    'gpus'      : [(g, 1.0) for g in gpus],
+                    'lfs'       : s.get('lfs') or 0,
+                    'mem'       : s.get('mem') or 0,
+                    'n_ranks'   : len(s.get('cores') or [])})
+    return out
+
+
 def read_slots(slots):
     out = list()
     for s in slots or []:
@@ -277,7 +294,10 @@ class SchedOracle(object):
                 continue
             self.report(w, uid, 'started')
             try:
-                slots = read_slots(task.get('slots'))
+                if self.scn.get('jsrun'):
+                    slots = read_slots_jsrun(task.get('slots'))
+                else:
+                    slots = read_slots(task.get('slots'))
             except Exception as e:
                 self.viol('C02', 'unreadable-slots|_try_allocation|%s'
                           % self.shape(uid), '%s: %r' % (uid, e), w)
@@ -376,6 +396,21 @@ class SchedOracle(object):
                                   % (uid, kind, i, node['name']), w)
 
         if app:
+            return
+
+        if self.scn.get('jsrun'):
+            # resource sets: every rank of the task is covered, with its cores
+            n_ranks = sum(x['n_ranks'] for x in slots)
+            if n_ranks != td['ranks']:
+                self.viol('C02', 'rank-count|jsrun-scheduler|%s' % sh,
+                          '%s: resource sets cover %d ranks of %d'
+                          % (uid, n_ranks, td['ranks']), w)
+            n_cores = sum(len(x['cores']) for x in slots)
+            if n_cores != td['ranks'] * max(td['cores_per_rank'] or 0, 1):
+                self.viol('C02', 'core-count|jsrun-scheduler|%s' % sh,
+                          '%s: %d cores for %d ranks x %s'
+                          % (uid, n_cores, td['ranks'], td['cores_per_rank']),
+                          w)
             return
 
         # C02: shape
@@ -715,7 +750,8 @@ def app_slot(node, cores, gpus=(), index=None, lfs=0, mem=0):
 
 
 def mk_scenario(name, family, layout, shapes, bulks=None, cancel=None,
-                envs=None, scattered=True, oracle='base', max_completes=None):
+                envs=None, scattered=True, oracle='base', max_completes=None,
+                sched=None, jsrun=False):
     '''shapes: list of shape names or (name, extra dict)'''
     tasks = list()
     for i, sh in enumerate(shapes):
@@ -732,7 +768,8 @@ def mk_scenario(name, family, layout, shapes, bulks=None, cancel=None,
             'bulks': [[tasks[i] for i in b] for b in bulks],
             'cancel': ['t%d' % i for i in cancel] if cancel else None,
             'envs': envs, 'scattered': scattered, 'oracle': oracle,
-            'max_completes': max_completes}
+            'max_completes': max_completes, 'jsrun': jsrun,
+            **({'sched': sched} if sched else {})}
 
 
 def mass_scenario(n):
@@ -819,6 +856,14 @@ def scenarios(ctx_pid, quick):
     for combo in itertools.product(['c1', 'r2', 'r3', 'r4'], repeat=3):
         add('cont', 'L3x2', list(combo), scattered=False)
 
+    # the jsrun flavour of the scheduler (resource sets) -------------------------------
+    from radical.pilot.agent.scheduler.continuous_jsrun import ContinuousJsrun
+    js = ['c1', 'r2', 'c2', 'g1', 'r2g1', 'r2gh', 'r4gh', 'l1', 'm2']
+    for lay in ('L1x4g2', 'L2x2g1lm'):
+        for combo in itertools.product(js, repeat=2 if quick else 3):
+            add('jsrun', lay, list(combo), sched=ContinuousJsrun, jsrun=True,
+                scattered=True)
+
     # application supplied slots -----------------------------------------------------
     s_dis  = [app_slot('n0', [3])]
     s_ovl  = [app_slot('n0', [0])]
@@ -870,11 +915,11 @@ def scenarios(ctx_pid, quick):
 
 FAMILIES = {
     'C01': ('core', 'gpu', 'frac', 'lfsmem', 'blocked', 'agent', 'app',
-            'cont', 'tags'),
+            'cont', 'tags', 'jsrun'),
     'C02': ('core', 'gpu', 'frac', 'lfsmem', 'rpn', 'tags', 'blocked',
-            'cont', 'invalid'),
+            'cont', 'invalid', 'jsrun'),
     'C03': ('core', 'gpu', 'frac', 'lfsmem', 'app', 'cancel', 'cont',
-            'blocked', 'mass'),
+            'blocked', 'mass', 'jsrun'),
     'C04': ('core', 'gpu', 'prio', 'invalid', 'env', 'cancel', 'rpn', 'frac',
             'lfsmem', 'blocked'),
     'C08': ('cancel',),
